@@ -383,6 +383,7 @@ func (w *World) axiomText(text string) string {
 				if eid, ok := w.TagOf[types.TypeString(pt.Elem(), nil)]; ok {
 					fmt.Fprintf(&out, "(assert (= (tagty %d) %d))\n", id, eid)
 				}
+				fmt.Fprintf(&out, "(assert (ptrtag %d))\n", id)
 			}
 		}
 		fmt.Fprintf(&out, "(assert (forall ((t Int)) (! (=> (> t %d) (> (tagty t) %d)) :pattern ((tagty t)))))\n", n, n)
